@@ -269,6 +269,15 @@ theorem C17_gen_tables :
     Gen.C17.guards.map (·.2) = List.replicate 3 [("Lt 0", "ValueError"), ("GtE starts[-1]", "ValueError")] := by
   decide
 
+/-- **No bond type is filtered** on the path `get_molecule_indices` / `get_molecule_masks` /
+`molecule_iter` → `find_connected` → `_find_connected`: molecules.py mentions no `BondType`
+member, never reads the type column and removes no bonds, and the DFS in bonds.pyx ignores the
+type table of `get_all_bonds()`.  So the graph `C17_molecules` speaks about is the graph of
+*all* bonds (COORDINATION, ANY and aromatic ones included), as the model's `neighbours` assumes. -/
+theorem C17_no_bond_type_filter :
+    Gen.C17.moleculeBondTypeRefs = [] ∧ Gen.C17.connectedBondTypeRefs = [] := by
+  decide
+
 /-! ## non-vacuity -/
 
 private def ex : List Atom :=
